@@ -84,9 +84,16 @@ def aggr_inject_rec(c, a, outer, comp):
         dl.lit_vars(l, inner_all, False)
         if isinstance(l, dl.Atom):
             inner_atom |= {x.name for x in l.args if isinstance(x, dl.Var)}
+    def binds(t, v):
+        # direct variable argument, or a variable inside a record / ADT pattern
+        if isinstance(t, dl.Var):
+            return t.name == v
+        if isinstance(t, (dl.Rec, dl.Adt)) and t.args:
+            return any(binds(x, v) for x in t.args)
+        return False
     for v in sorted((inner_all & outer) - inner_atom):
         for l in c.body:
-            if isinstance(l, dl.Atom) and any(isinstance(x, dl.Var) and x.name == v for x in l.args):
+            if isinstance(l, dl.Atom) and any(binds(x, v) for x in l.args):
                 if any(comp.get(l.rel) == comp.get(h.rel) for h in c.heads):
                     return True
                 break
